@@ -1047,7 +1047,9 @@ func init() {
 			for k := range m {
 				keys = append(keys, k)
 			}
-			sort.Slice(keys, func(i, j int) bool { return keys[i][0] < keys[j][0] || (keys[i][0] == keys[j][0] && keys[i][1] < keys[j][1]) })
+			sort.Slice(keys, func(i, j int) bool {
+				return keys[i][0] < keys[j][0] || (keys[i][0] == keys[j][0] && keys[i][1] < keys[j][1])
+			})
 			delete(m, keys[c.Intn(len(keys))])
 			a, b := c.randSeq(8, alpha), c.randSeq(8, alpha)
 			g.run(a, b, poolMat{m, "missing-pair"}, "missing-pair")
